@@ -158,6 +158,59 @@ def is_len_partitions(e):
     return norm(e).replace(' ', '') in ('len(self.partitions)', 'self.partitions.shape[0]')
 
 
+def _elem_pred(e, name):
+    """'neg' when the element-wise expression is true exactly for the sentinel (name < 0, name == -1, name <= -1), 'ok' when it
+    is true exactly for the class positions (name >= 0, name != -1, name > -1); None otherwise"""
+    if isinstance(e, ast.UnaryOp) and isinstance(e.op, (ast.Invert, ast.Not)):
+        k = _elem_pred(e.operand, name)
+        return {'neg': 'ok', 'ok': 'neg'}.get(k)
+    if isinstance(e, ast.Call) and norm(e.func).split('.')[-1] == 'logical_not' and len(e.args) == 1:
+        return {'neg': 'ok', 'ok': 'neg'}.get(_elem_pred(e.args[0], name))
+    if isinstance(e, ast.Compare) and len(e.ops) == 1:
+        l, r, op = e.left, e.comparators[0], e.ops[0]
+        flip = {ast.Lt: ast.Gt, ast.Gt: ast.Lt, ast.LtE: ast.GtE, ast.GtE: ast.LtE, ast.Eq: ast.Eq, ast.NotEq: ast.NotEq}
+        if isinstance(r, ast.Name) and r.id == name and type(op) in flip:
+            l, r, op = r, l, flip[type(op)]()
+        if not (isinstance(l, ast.Name) and l.id == name):
+            return None
+        c = const_value(r)
+        if not isinstance(c, int) or isinstance(c, bool):
+            return None
+        table = {(ast.Lt, 0): 'neg', (ast.LtE, -1): 'neg', (ast.Eq, -1): 'neg', (ast.GtE, 0): 'ok', (ast.Gt, -1): 'ok', (ast.NotEq, -1): 'ok'}
+        return table.get((type(op), c))
+    return None
+
+
+def refuses_sentinel(test, name):
+    """the test is true whenever some element of `name` is the sentinel: any(neg) / not all(ok) / min(name) < 0, alone or as one
+    alternative of an `or`"""
+    if isinstance(test, ast.BoolOp) and isinstance(test.op, ast.Or):
+        return any(refuses_sentinel(v, name) for v in test.values)
+    neg = False
+    while isinstance(test, ast.UnaryOp) and isinstance(test.op, ast.Not):
+        neg = not neg
+        test = test.operand
+    red, arg = None, None
+    if isinstance(test, ast.Call) and isinstance(test.func, ast.Attribute) and test.func.attr in ('any', 'all'):
+        if norm(test.func.value) in ('_np', 'np', 'numpy') and len(test.args) == 1:
+            red, arg = test.func.attr, test.args[0]
+        elif not test.args:
+            red, arg = test.func.attr, test.func.value
+    elif isinstance(test, ast.Call) and isinstance(test.func, ast.Name) and test.func.id in ('any', 'all') and len(test.args) == 1:
+        red, arg = test.func.id, test.args[0]
+    if red is not None:
+        k = _elem_pred(arg, name)
+        return (red == 'any' and k == 'neg' and not neg) or (red == 'all' and k == 'ok' and neg)
+    if isinstance(test, ast.Compare) and len(test.ops) == 1 and not neg:
+        l = test.left
+        is_min = isinstance(l, ast.Call) and ((isinstance(l.func, ast.Attribute) and l.func.attr == 'min' and norm(l.func.value) == name and not l.args)
+                                              or (norm(l.func).split('.')[-1] in ('min', 'amin') and len(l.args) == 1 and norm(l.args[0]) == name))
+        c = const_value(test.comparators[0])
+        if is_min and ((isinstance(test.ops[0], ast.Lt) and c == 0) or (isinstance(test.ops[0], ast.LtE) and c == -1) or (isinstance(test.ops[0], ast.Eq) and c == -1)):
+            return True
+    return False
+
+
 def index_kind(prog, lk, ci, func, idx, depth=0):
     if depth > 3:
         return None, 'too deep'
@@ -184,11 +237,8 @@ def index_kind(prog, lk, ci, func, idx, depth=0):
             # lookup output: needs an array-level sentinel check before use
             guard = None
             for n in ast.walk(func.node):
-                if isinstance(n, ast.If) and any(isinstance(b, ast.Raise) for b in n.body):
-                    t = norm(n.test).replace(' ', '')
-                    if t in (f'({idx.id}<0).any()', f'_np.any({idx.id}<0)', f'np.any({idx.id}<0)', f'({idx.id}==-1).any()',
-                             f'_np.any({idx.id}==-1)', f'({idx.id}<=-1).any()'):
-                        guard = n
+                if isinstance(n, ast.If) and n.body and isinstance(n.body[-1], ast.Raise) and refuses_sentinel(n.test, idx.id):
+                    guard = n
             if guard is not None:
                 return 'ClassIndex', f'`{idx.id}` is the value->position lookup output, refused when it contains the sentinel'
             return 'MaybeClassIndex', f'`{idx.id}` is a lookup output that may contain the sentinel -1 (never checked)'
@@ -375,7 +425,7 @@ def run(ctx, prog):
     # the lookup used by the matcher is built from the partitions the templates are ordered by
     for attr, lst in lk.attrs.items():
         for f, st in lst:
-            args = [norm(a) for a in st.value.args]
+            args = [norm(a) for a in st.value.args] + [norm(k.value) for k in st.value.keywords]
             ctx.check(args == ['self.partitions'], 'C12-D1', f'{f.key}::{norm(st)[:100]}',
                       f'lookup built from {args}, not from self.partitions', 'lookup built from self.partitions', f.where(st))
     n3 = d3(ctx, prog)
